@@ -12,7 +12,7 @@ D = {
  "C03-seed15": ("adaptationfield.EncoderBoundaryPoint walks the private data as a field list and returns only the bytes from the EBP field onwards (same idea as C03-seed13)", OK),
  "C04-seed15": ("AdaptationField.OPCR() demands room for a PCR in front of the OPCR: with OPCR_flag only and adaptation_field_length 7..12 the getter fails after a successful SetOPCR", MISSED + "every clock / splice / private-data combination also in a field the requested fields fill exactly, or with one byte to spare"),
  "C04-seed16": ("NewPESHeader looks for the optional header only within pesBytes[:PES_packet_length]: short complete PES packets lose DTS / PTS", OK),
- "C05-seed15": ("the PMT section list is walked by recursion, one stack frame per section: stack use is 20-40 times the input size, a 24 MiB zero-filled buffer dies of a stack overflow", MISSED + "16..256 KiB of three-byte sections behind one pointer_field; the decode budget also bounds the growth of the goroutine stacks (256 KiB + 8 bytes per input byte)"),
+ "C05-seed15": ("the PMT section list is walked by recursion, one stack frame per section: stack use is 20-40 times the input size, a 24 MiB zero-filled buffer dies of a stack overflow", MISSED + "64 KiB..1 MiB of three-byte sections behind one pointer_field; the decode budget also bounds the growth of the goroutine stacks (4 MiB + 8 bytes per input byte)"),
  "C05-seed16": ("IsDolbyATMOS loops with a uint8 index up to len(data): never returns for EC-3 descriptors of 256 bytes or more without a 0x01 byte", OK),
  "C06-seed15": ("ReadPMT skips a packet that 'duplicates' the previous one (equal payload, no adaptation field) without comparing the continuity counter", OK),
  "C07-seed16": ("NewPAT's 188-byte path checks 'whole section in the packet' with >= instead of >: a section that ends exactly at byte 188 is refused", OK),
